@@ -774,3 +774,56 @@ func LongChain(c Codec, logID string, n int) ([]iface.IPFSLogEntry, [][]byte) {
 	}
 	return out, longChains.rw[key][:n:n]
 }
+
+var wideForests = struct {
+	mu sync.Mutex
+	es map[string][][]iface.IPFSLogEntry
+	rw map[string][][][]byte
+}{es: map[string][][]iface.IPFSLogEntry{}, rw: map[string][][][]byte{}}
+
+// WideForest returns the first n of 40 independent short histories (1-2 entries each, written by writers 4..7 with
+// distinct clock times) of one log, and their stored blocks: a replica that holds them has that many heads. Every
+// caller gets its own entry objects.
+func WideForest(c Codec, logID string, n int) ([][]iface.IPFSLogEntry, [][][]byte) {
+	wideForests.mu.Lock()
+	defer wideForests.mu.Unlock()
+	key := fmt.Sprintf("%d/%s", c, logID)
+	if wideForests.es[key] == nil {
+		var all [][]iface.IPFSLogEntry
+		var raws [][][]byte
+		for i := 0; i < 40; i++ {
+			st := fakeipfs.NewStore()
+			w := 4 + i%4
+			l, err := NewLog(st.API(), w, logID, OrderLWW, IO(c, 0), &ipfslog.LogOptions{Clock: entry.NewLamportClock(Identity(w).PublicKey, 3*i)})
+			if err != nil {
+				panic(err)
+			}
+			var es []iface.IPFSLogEntry
+			var rw [][]byte
+			for j := 0; j < 1+i%2; j++ {
+				e, err := l.Append(context.Background(), []byte(fmt.Sprintf("wide-%d-%d", i, j)), nil)
+				if err != nil {
+					panic(err)
+				}
+				raw, _ := st.Raw(e.GetHash())
+				es, rw = append(es, e), append(rw, raw)
+			}
+			all, raws = append(all, es), append(raws, rw)
+		}
+		wideForests.es[key], wideForests.rw[key] = all, raws
+	}
+	if n > 40 {
+		n = 40
+	}
+	out := make([][]iface.IPFSLogEntry, n)
+	for i, chain := range wideForests.es[key][:n] {
+		for _, e := range chain {
+			c := e.Copy()
+			c.SetPayload(append([]byte(nil), e.GetPayload()...))
+			c.SetKey(append([]byte(nil), e.GetKey()...))
+			c.SetSig(append([]byte(nil), e.GetSig()...))
+			out[i] = append(out[i], c)
+		}
+	}
+	return out, wideForests.rw[key][:n]
+}
